@@ -70,9 +70,17 @@ def unwrap(e):
             e = e.get("e")
         elif k == "Construct" and e.get("copymove") and len(e.get("args", [])) == 1:
             e = e["args"][0]
+        elif k == "Call" and len(e.get("args", [])) == 1 and _is_move(e):
+            # std::move(x) / std::forward<T>(x) name the object x
+            e = e["args"][0]
         else:
             break
     return e
+
+
+def _is_move(e):
+    q = ((e.get("callee") or {}).get("qn") or "").split("<")[0]
+    return q in ("std::move", "std::forward", "std::move_if_noexcept")
 
 
 def unwrap_all_casts(e):
@@ -83,6 +91,8 @@ def unwrap_all_casts(e):
         elif k in ("DefaultArg", "DefaultInit"):
             e = e.get("e")
         elif k == "Construct" and e.get("copymove") and len(e.get("args", [])) == 1:
+            e = e["args"][0]
+        elif k == "Call" and len(e.get("args", [])) == 1 and _is_move(e):
             e = e["args"][0]
         else:
             break
@@ -623,6 +633,18 @@ def cond(e, env=None):
         # x != 0, x > 0 (unsigned), x == 0, 0 < x ...
         lt = unwrap(l).get("t", "") if isinstance(unwrap(l), dict) else ""
         rt = unwrap(r).get("t", "") if isinstance(unwrap(r), dict) else ""
+        # (a member read inside a const method is `const unsigned long`)
+        lt, rt = lt.replace("const ", "").replace("volatile ", ""), rt.replace("const ", "").replace("volatile ", "")
+        if (rv == 0 and lv is None and op in ("==", "!=")) or (lv == 0 and rv is None and op in ("==", "!=")):
+            # (a - b) == 0  <=>  a == b  (pointer difference or modular integer difference, not narrowed by a cast)
+            d = l if rv == 0 else r
+            wide = True
+            while isinstance(d, dict) and d.get("k") == "Cast":
+                wide = wide and (d.get("t", "").replace("const ", "") in ("unsigned long", "long", "std::size_t", "size_t", "std::ptrdiff_t", "ptrdiff_t",
+                                                                          "unsigned long long", "long long"))
+                d = d.get("e")
+            if wide and isinstance(d, dict) and d.get("k") == "Bin" and d.get("op") == "-":
+                return cond({"k": "Bin", "op": op, "t": "bool", "l": e.get("l"), "lhs": d["lhs"], "rhs": d["rhs"]}, env)
         if rv == 0 and lv is None:
             uns = lt.startswith("unsigned") or lt == "bool"
             if op == "!=" or (op == ">" and uns):
